@@ -191,7 +191,8 @@ func (g G) tamper(label string, m *MsgSpec) {
 		}
 		switch op := g.pick(lab+".op", ops...); op {
 		case "field-acs":
-			m.Tamper = append(m.Tamper, Tamper{Op: "field", S: "AssertionConsumerServiceURL=" + g.pick(lab+".u", "https://evil.example/acs", "https://rogue.example/acs", "javascript:alert(1)", "https://sp0.example.evil.example/acs")})
+			m.Tamper = append(m.Tamper, Tamper{Op: "field", A: g.intn(lab+".ua", 4), S: "AssertionConsumerServiceURL=" + g.pick(lab+".u", "https://evil.example/acs", "https://rogue.example/acs", "javascript:alert(1)", "https://sp0.example.evil.example/acs",
+				"@acs-upper", "@acs-hostcase", "@acs-lead-space", "@acs-trail-space", "@acs-newline", "@acs-fold", "@acs-slash", "@acs-pct")})
 		case "field-id":
 			m.Tamper = append(m.Tamper, Tamper{Op: "field", S: "ID=_evil" + g.text(lab+".id", "", false)})
 		case "field-dest":
